@@ -22,7 +22,7 @@ pub fn enumerate(prog: &Value, w: &mut dyn std::io::Write) -> u64 {
     let pid = prog.get("id").map(|v| v.as_str().map(str::to_string).unwrap_or(v.to_string())).unwrap_or_default();
     let clean = events_of(&base);
     let mut n = 0u64;
-    let mut emit = |m: Map<String, Value>, w: &mut dyn std::io::Write| {
+    let emit = |m: Map<String, Value>, w: &mut dyn std::io::Write| {
         let s = serde_json::to_string(&Value::Object(m)).unwrap();
         w.write_all(s.as_bytes()).unwrap();
         w.write_all(b"\n").unwrap();
